@@ -5,6 +5,7 @@ package main
 
 import (
 	"context"
+	"math"
 	"database/sql"
 	"time"
 
@@ -67,7 +68,7 @@ func genSqlwScenario(r *Rng, names bool) sqlwScenario {
 	}
 	sc.opts.BatchSize = Pick(r, []int{0, 1, 2, 3, n, n + 1, n + 2, 1000, max(n-1, 1), 7})
 	if r.Chance(4) {
-		sc.opts.BatchSize = Pick(r, []int{-1, -1000, 1 << 62})
+		sc.opts.BatchSize = Pick(r, []int{-1, -1000, 1 << 62, math.MaxInt, math.MaxInt - 1})
 	}
 	if r.Chance(25) && ncols > 0 {
 		sc.opts.TypeMap = map[string]string{}
@@ -150,19 +151,22 @@ func runSqlwCtx(sc sqlwScenario, failAt int, cancel bool) (string, []recCall) {
 	if cancel && sc.entry == 1 {
 		// database/sql rolls a cancelled transaction back from its own goroutine, possibly after the call
 		// returned: wait (bounded) for the driver-level rollback before closing the trace
-		for w := 0; w < 200; w++ {
+		for w := 0; w < 100; w++ {
 			st.mu.Lock()
-			seen := false
+			began, ended := false, false
 			for _, c := range st.calls {
-				if c.kind == "RB" {
-					seen = true
+				if c.kind == "B" && c.ok {
+					began = true
+				}
+				if c.kind == "RB" || c.kind == "C" {
+					ended = true
 				}
 			}
 			st.mu.Unlock()
-			if seen {
+			if !began || ended {
 				break
 			}
-			time.Sleep(5 * time.Millisecond)
+			time.Sleep(2 * time.Millisecond)
 		}
 	}
 	st.mu.Lock()
